@@ -100,6 +100,9 @@ def signature(c, row):
         return {"kind": "reference-error"}, "a reference to an invalid/absent Secret does not report the error (or a valid one reports an error)"
     if kind == 4:
         return {"kind": "harness-shape"}, "observations and operations differ in number"
+    if kind == 6:
+        return ({"kind": "reference-path", "family": "controller" if is_ctl(c) else "store"},
+                "a reference to a Secret names a file that is not derived from that Secret")
     if kind == 5:
         return ({"kind": "restart-leftover", "dir": "secrets"},
                 "a file written by the previous process is still in the secrets directory after the restart although in the new process "
@@ -116,10 +119,36 @@ def signature(c, row):
             "the files derived from a Secret are not exactly the derivation of its current valid, asked-for version")
 
 
+def special_check(run, c):
+    """the files of the special Secrets (kept apart from the listing the model sees): `wildcard` / `default` hold the TLS derivation
+    of some valid version of the configured Secret that existed so far, and once written they stay (retained by design)"""
+    want = {"wildcard": c.get("wildcard"), "default": c.get("default")}
+    ok_hashes = {"wildcard": set(), "default": set()}
+    present = set()
+    for i, (o, s) in enumerate(zip(c["ops"], c["obs"]["steps"])):
+        if o["op"] == "cput" and o.get("valid") and o.get("type") == "kubernetes.io/tls":
+            for f, key in want.items():
+                if key == o["ns"] + "/" + o["name"]:
+                    ok_hashes[f].add(o["main"])
+        now = {f["name"]: f for f in s.get("special") or []}
+        bad = None
+        for f in present:
+            if f not in now and o["op"] != "restart":
+                bad = "special file %s disappeared" % f
+        for f, x in now.items():
+            if x["hash"] not in ok_hashes.get(f, set()) or x["mode"] != 0o600:
+                bad = "special file %s does not hold a valid version of %s (mode %o)" % (f, want.get(f), x["mode"])
+        present = set(now)
+        if bad:
+            run.failing({"kind": "special-file"}, [c], "%s at step %d of case %d" % (bad, i, c["id"]),
+                        theorem="special Secrets (default / wildcard): written by handleSpecialSecretUpdate, retained")
+            return
+
+
 def strip(c):
     """canonical input of a case: the operations without the oracles"""
-    return [[o["op"], o.get("ns"), o.get("name"), o.get("key"), o.get("type"), o.get("payload"), o.get("salt"), o.get("ann")]
-            for o in c.get("ops", [])]
+    return [c.get("wildcard"), c.get("default")] + [[o["op"], o.get("ns"), o.get("name"), o.get("key"), o.get("type"), o.get("payload"),
+                                                      o.get("salt"), o.get("ann"), o.get("mns")] for o in c.get("ops", [])]
 
 
 def judge(run, cases, res, st):
@@ -148,6 +177,9 @@ def judge(run, cases, res, st):
                             % ("valid" if o["valid"] else "invalid", o.get("type", ""), o.get("payload", ""),
                                "valid" if o.get("want") else "invalid", c["id"]),
                             theorem="validity oracle of Secrets.Model (vvalid) against the payload catalogue of harness c11")
+    for c in cases:
+        if is_ctl(c) and (c.get("wildcard") or c.get("default")) and not broken(c):
+            special_check(run, c)
     for row in res:
         cid, agreeA, spec, nontriv, changes, agreeB = row[:6]
         c = byid[cid]
@@ -212,11 +244,15 @@ def finish(run, st):
                        "configured through the real Configurator 10% in the classes force/mixed) over 2-4 Secrets; types: all 7 supported ones, 6 unsupported; "
                        "payloads: 3 real ed25519 key pairs, mismatched pair, non-PEM, missing keys, wrong PEM block, bad DER, OIDC secrets with forbidden "
                        "characters, duplicate API keys, empty data; classes clean/force (dash-free namespaces, no CA), ca, collide (a-b/c vs a/b-c), casuffix "
-                       "(x as CA vs x-ca.crt), retype, mixed, plus fixed witness histories of the refutation theorems.  Every fourth history is of the controller "
+                       "(x as CA vs x-ca.crt), retype, mixed, xns (Secrets of one name in several namespaces, mergeable Ingresses whose minion lives in "
+                       "another namespace than the master and carries the basic-auth / JWT annotation: every reference must name a file derived from that "
+                       "very Secret), plus fixed witness histories of the refutation theorems.  Every fourth history is of the controller "
                        "family (classes ctl, ctl-life, ctl-restart; in the latter two the history begins with an existing cluster -- referenced and "
                        "unreferenced, valid and invalid, supported and unsupported Secrets -- and the real preSyncSecrets; ctl-life lets namespaces lose the "
                        "watch label (real lbc.sync of the namespace task -> cleanupUnwatchedNamespacedResources) and get it back (real newNamespacedInformer, "
-                       "Add events); ctl-restart lets the process restart over the surviving directory (new LocalManager, Configurator, store, controller)): cluster-level Secret events (create, update keeping the type, delete, delete-and-recreate with another "
+                       "Add events); ctl-special configures the first key as -wildcard-tls-secret (and often the second as "
+                       "-default-server-tls-secret) so that special Secrets are also used as ordinary ones through the namespace-label life cycle (the files "
+                       "`default` / `wildcard` are kept apart and checked for holding a valid version and being retained); ctl-restart lets the process restart over the surviving directory (new LocalManager, Configurator, store, controller)): cluster-level Secret events (create, update keeping the type, delete, delete-and-recreate with another "
                        "type / unsupported type / invalid payload) delivered to the real createSecretHandlers of a controller built by NewLoadBalancerController, "
                        "with the real work queue drained through the real lbc.sync at arbitrary points and lookups through lbc.secretStore; S compares the "
                        "directory with the object the cluster holds whenever no event is outstanding.  A case is distinct by its operations "
